@@ -2,6 +2,9 @@ package v1
 
 import (
 	"encoding/asn1"
+	"time"
+
+	"github.com/wokdav/gopki/generator"
 
 	"github.com/wokdav/gopki/generator/cert"
 	"github.com/wokdav/gopki/generator/config"
@@ -293,4 +296,42 @@ func vhValidityInherit() {
 	}
 	vAssert(merged.Validity.From.Unix() == want.from && merged.Validity.Until.Unix() == want.until,
 		"effective validity is not the certificate's own block, or the profile's when the certificate has none")
+}
+
+// vhValidityToCert: C04, the step after the configuration: whatever two
+// instants the effective configuration holds - in either order, equal, in the
+// past (a deliberately expired certificate) - BuildCertBody puts exactly
+// these into the certificate body as notBefore and notAfter.
+func vhValidityToCert() {
+	vClockFixed(1709640000)
+	// notBefore anywhere inside one of four days, notAfter up to a day before
+	// or after it (so: earlier, equal, later) or far away in the past / future
+	// (narrow symbolic windows keep any calendar arithmetic a changed
+	// implementation may do on these instants tractable)
+	bases := []int64{1709596800, 2524521600, 0, 951782400} // 2024-03-05, 2049-12-31, 1970-01-01, 2000-02-29 (00:00 UTC)
+	from := bases[vChoose("fromDay", len(bases))] + vInt64("from.sec", 0, 86399)
+	var until int64
+	switch vChoose("untilKind", 3) {
+	case 0:
+		until = from + vInt64("until.delta", -86400, 86400)
+	case 1:
+		until = 1001203200 // 2001-09-23: a deliberately expired certificate
+	default:
+		until = 2840140800 // 2060-01-01
+	}
+	content, err := initCertificate(CertConfig{Subject: "CN=a", SerialNumber: 5})
+	vAssert(err == nil && content != nil, "initCertificate failed")
+	if err != nil || content == nil {
+		return
+	}
+	content.Validity = config.CertificateValidity{From: time.Unix(from, 0), Until: time.Unix(until, 0), IsSet: true, IsStatic: true}
+	ctx, err := generator.BuildCertBody(*content, nil, nil)
+	vAssert(err == nil && ctx != nil, "BuildCertBody failed")
+	if err != nil || ctx == nil {
+		return
+	}
+	vReach("built")
+	v := ctx.TbsCertificate.Validity
+	vAssert(v.NotBefore.Unix() == from, "notBefore of the certificate body is not the configured instant")
+	vAssert(v.NotAfter.Unix() == until, "notAfter of the certificate body is not the configured instant")
 }
